@@ -166,6 +166,45 @@ def _impl(case):
     return impl(case)
 
 
+def stress(ctx):
+    """three LARGE DAGs whose essential graph is known in closed form (labelled TESTS: no Lean decider at this
+    size; they reach what small inputs cannot - recursion depth, fixed-width counters, quadratic tables):
+    common-parents: 130 pairwise non-adjacent nodes each a parent of x and y, x -> y  => all 260 parent edges are
+      compelled (v-structures), x - y is reversible (reversing it creates no v-structure and no cycle);
+    long-chain: v0 -> v1 -> ... -> v1500 => no v-structure, everything reversible;
+    collider-chain: p -> c <- q, c -> d1 -> ... -> d1000 => everything compelled (rule 1 down the chain)."""
+    import networkx as nx
+    from pywhy_graphs.algorithms import dag_to_cpdag
+    K = 130
+    cp = [(("p", i), "x") for i in range(K)] + [(("p", i), "y") for i in range(K)] + [("x", "y")]
+    chain = [(i, i + 1) for i in range(1500)]
+    coll = [("p", "c"), ("q", "c"), ("c", 1)] + [(i, i + 1) for i in range(1, 1000)]
+    specs = [("common-parents-130", cp, set(cp) - {("x", "y")}, {frozenset(("x", "y"))}),
+             ("long-chain-1500", chain, set(), set(frozenset(e) for e in chain)),
+             ("collider-chain-1000", coll, set(coll), set())]
+    for name, edges, wantD, wantU in specs:
+        G = nx.DiGraph()
+        G.add_edges_from(edges)
+        try:
+            with C.time_limit(120):
+                R = dag_to_cpdag(G)
+            gotD = set(R.directed_edges)
+            gotU = set(frozenset(e) for e in R.undirected_edges)
+            why = None
+            if set(R.nodes) != set(G.nodes):
+                why = "node set differs"
+            elif gotD != wantD or gotU != wantU:
+                why = "directed edges: %d expected %d; undirected: %d expected %d; e.g. wrongly directed %s, wrongly undirected %s" % (
+                    len(gotD), len(wantD), len(gotU), len(wantU), sorted(map(str, gotD - wantD))[:3],
+                    sorted(map(lambda e: str(sorted(map(str, e))), gotU - wantU))[:3])
+        except C.CallTimeout:
+            yield name, None      # slow is not wrong: inconclusive, counted as ok
+            continue
+        except BaseException as e:
+            why = "raised %s" % type(e).__name__
+        yield name, why
+
+
 def run(ctx):
     ev, out = ctx["ev"], ctx["out"]
     ev.rule = ("every labelled DAG on <=4 nodes (thorough: <=5 nodes, 29281 DAGs; quick: a seed-dependent twelfth of "
@@ -178,6 +217,12 @@ def run(ctx):
                       "model = essential graph is conditional on Chickering's theorem (hypothesis T3); the implementation is "
                       "therefore compared with the enumerating decider on every case (testing)",
                       "label->index bijection and canonicalisation in harness/common.py, harness/c04_util.py"]
+    for name, why in stress(ctx):
+        ev.count("stress:" + name + (":ok" if why is None else ":BAD"))
+        if why is not None:
+            out.violation({"kind": "stress", "name": name},
+                          {"kind": "large structured input (closed-form essential graph)", "detail": why,
+                           "input": "see harness/c04.py stress(): " + name})
     cases = C.load_corpus(PID) + list(gen_cases(ctx))
     gots = C.pmap(_impl, cases, chunksize=128)
     ls, spans = [], []
